@@ -1418,6 +1418,16 @@ func chanName(ch ssa.Value) string {
 			return deref(fa.X.Type()).Underlying().(*types.Struct).Field(fa.Field).Name()
 		}
 	}
+	// a local channel: the source variable it was assigned to (debug reference)
+	if refs := ch.Referrers(); refs != nil {
+		for _, r := range *refs {
+			if d, ok := r.(*ssa.DebugRef); ok && d.X == ch {
+				if obj := d.Object(); obj != nil && obj.Name() != "" && obj.Name() != "_" {
+					return obj.Name()
+				}
+			}
+		}
+	}
 	return "chan"
 }
 
@@ -1435,6 +1445,10 @@ func (t *Tr) callSiteClauses(name string, ord int, cc *ssa.CallCommon, pos token
 		if !calleeMatches(pat, name) || (k != 0 && k != ord) {
 			continue
 		}
+		if t.clauseHits == nil {
+			t.clauseHits = map[*Clause]int{}
+		}
+		t.clauseHits[cl]++
 		txt := strings.TrimSpace(strings.TrimPrefix(strings.TrimSpace(strings.TrimPrefix(cl.Text, f[0])), "requires"))
 		label := ""
 		if strings.HasPrefix(txt, "[") {
